@@ -2,7 +2,7 @@
 import glob
 import json
 import os
-from framework import REPO, ROOT, LEAN
+from framework import REPO, ROOT, LEAN, loopback
 
 TIE = ["Nsq.Tie.Meta", "Nsq.Tie.MetaLoad"]
 PROPS = ["Nsq.Props.C06", "Nsq.Props.C06Load"]
@@ -134,8 +134,8 @@ def second_instance_binary(ctx, corr_broken):
     d = os.path.join(ctx.work, "second_dp")
     os.makedirs(d, exist_ok=True)
     # a loopback address private to this run (not 127.0.0.1: a client of another check that still reconnects to a recycled
-    # 127.0.0.1 port must not reach this daemon; see vfMetaLoop in harness/meta/meta_test.go)
-    lo = "127.%d.%d.%d:0" % (1 + (os.getpid() >> 16) % 250, (os.getpid() >> 8) & 255, 1 + os.getpid() % 254)
+    # 127.0.0.1 port must not reach this daemon; see framework.loopback / vfLoopback in harness/common)
+    lo = loopback() + ":0"
     args = [binp, "--data-path", d, "--tcp-address=" + lo, "--http-address=" + lo]
     logs = [open(os.path.join(ctx.work, "nsqd%d.log" % i), "w+") for i in (1, 2, 3)]
 
